@@ -63,6 +63,55 @@ def make_counting_sequence(rows):
     return CountingRowSequence(rows)
 
 
+def make_custom_payload(rows):
+    """A user-defined MaterializedRowIterable (only __iter__ and __len__), counting iteration starts."""
+    from lsst.daf.relation import iteration
+
+    class CustomRows(iteration.MaterializedRowIterable):
+        def __init__(self, rows):
+            self._rows = list(rows)
+            self.iter_starts = 0
+            self.rows_pulled = 0
+
+        def __iter__(self):
+            self.iter_starts += 1
+            for r in self._rows:
+                self.rows_pulled += 1
+                yield r
+
+        def __len__(self):
+            return len(self._rows)
+
+    return CustomRows(rows)
+
+
+def make_counting_mapping(cols, rows):
+    """A RowMapping payload keyed on the key columns, counting iteration starts; None if keys are not unique."""
+    from lsst.daf.relation import iteration
+
+    key = tuple(c for c in cols if c.is_key)
+    d = {}
+    for r in rows:
+        k = tuple(r[c] for c in key)
+        if k in d:
+            return None
+        d[k] = r
+
+    class CountingRowMapping(iteration.RowMapping):
+        def __init__(self, unique_key, rows):
+            super().__init__(unique_key, rows)
+            self.iter_starts = 0
+            self.rows_pulled = 0
+
+        def __iter__(self):
+            self.iter_starts += 1
+            for r in self.rows.values():
+                self.rows_pulled += 1
+                yield r
+
+    return CountingRowMapping(key, d)
+
+
 class Env:
     """Engines 0 = SQL "S", 1 = iteration "A", 2 = iteration "B"."""
 
@@ -111,7 +160,13 @@ class Env:
             for c in cols:
                 colset.add(c)
             return engine.make_leaf(colset, payload, name=name, min_rows=lo, max_rows=hi)
-        payload = make_counting_sequence(data) if self.counting else iteration.RowSequence(data)
+        payload = None
+        if variant == "mapping":
+            payload = make_counting_mapping(cols, data)
+        if payload is None and variant in ("custom", "mapping"):
+            payload = make_custom_payload(data)
+        if payload is None:
+            payload = make_counting_sequence(data) if self.counting else iteration.RowSequence(data)
         self.payloads.append(payload)
         colset = frozenset(cols)
         if (lo, hi) == (len(data), len(data)):
